@@ -246,12 +246,10 @@ func runC04(c *Ctx) {
 
 func c04Case(c *Ctx, fn *ssa.Function, b *ana.Builder) {
 	r := c.R
-	var vc *ssa.Function
-	for _, ce := range edgesMatching(b, "bin<==>(call<*>(p0), nil)") {
-		vc = calleeOf(ce.Lit.Arg(0))
-	}
-	if vc == nil {
-		r.Undec("C04.exits.case-helper", c.P.Pos(fn.Pos()), "case validation helper not found")
+	// the single-case gate is a wildcard pattern (`f(s) == nil`): every edge it matches must call the one routine decided here
+	vc, uniq := uniqueCallee(edgesMatching(b, "bin<==>(call<*>(p0), nil)"))
+	if vc == nil || !uniq {
+		r.Undec("C04.exits.case-helper", c.P.Pos(fn.Pos()), "case validation helper not found, or several different routines are tested against nil on the argument")
 		return
 	}
 	r.Fn(ana.ShortFunc(vc))
